@@ -5,6 +5,11 @@ import Reduino.Lang.PySem
   semantics (typed variables with implicit conversion at assignment, `&&`/`||`/`!` yield bool, `?:` converts to a
   common type, `for (int i = 0; i < limit; ++i)` re-evaluates its limit and owns a block-scoped `i`).
   C `int` is modelled as an unbounded integer (the 16/32-bit range is a separate side condition, see Props/C01).
+  `/` and `%` have two readings, selected by a trailing `Mode` argument of every evaluator (default `.strict`): the RAW reading
+  is C's (truncation toward zero, remainder with the sign of the dividend, zero divisor undefined); the STRICT reading
+  additionally stops with `signedDiv` when the dividend or the divisor is negative — the operands on which C's operators and
+  Python's `//`, `%` may differ — exactly as `chk` stops with `overflow`.  A strict run that succeeds is a raw run
+  (`Props/C01.strict_run_is_raw_run`).
 -/
 namespace Reduino.Lang
 
@@ -23,6 +28,17 @@ abbrev TyEnv := List (String × Ty)
 def chk (r : Int) : Except Err Val :=
   if -2147483648 ≤ r ∧ r ≤ 2147483647 then .ok (.int r) else .error .overflow
 
+inductive Mode where | strict | raw
+  deriving DecidableEq, Repr
+
+/-- a binary operator on two `int`s (bool operands were promoted by the caller).  `INT_MIN / -1` and `INT_MIN % -1` overflow. -/
+def binop (op : BinOp) (a b : Int) (m : Mode := .strict) : Except Err Val :=
+  if op.isDiv then
+    if b = 0 then .error .zeroDiv
+    else if m = .strict ∧ (a < 0 ∨ b < 0) then .error .signedDiv
+    else do let _ ← chk (a.tdiv b); chk (op.ceval a b)
+  else chk (op.ceval a b)
+
 def conv (t : Ty) (v : Val) : Val :=
   match t with
   | .int => .int v.toInt
@@ -40,21 +56,28 @@ def typeOf (te : TyEnv) : Expr → Ty
   | .or _ _ => .bool
   | .not _ => .bool
   | .ite _ a b => if typeOf te a = typeOf te b then typeOf te a else .int
+  | .abs _ => .int                       -- `(x)>0?(x):-(x)`: the negation is an `int`
+  | .mm _ a b => if typeOf te a = typeOf te b then typeOf te a else .int
 
-def eval (te : TyEnv) (s : Store) : Expr → Except Err Val
+def eval (te : TyEnv) (s : Store) (e : Expr) (m : Mode := .strict) : Except Err Val :=
+  match e with
   | .int n => .ok (.int n)
   | .bool b => .ok (.bool b)
   | .var x => match s.get x with | some v => .ok v | none => .error .nameError
-  | .bin op a b => do let x ← eval te s a; let y ← eval te s b; chk (op.eval x.toInt y.toInt)
-  | .neg a => do let x ← eval te s a; chk (-x.toInt)
-  | .cmp op a b => do let x ← eval te s a; let y ← eval te s b; pure (.bool (op.eval x.toInt y.toInt))
-  | .and a b => do let x ← eval te s a; if x.truthy then do let y ← eval te s b; pure (.bool y.truthy) else pure (.bool false)
-  | .or a b => do let x ← eval te s a; if x.truthy then pure (.bool true) else do let y ← eval te s b; pure (.bool y.truthy)
-  | .not a => do let x ← eval te s a; pure (.bool (!x.truthy))
+  | .bin op a b => do let x ← eval te s a m; let y ← eval te s b m; binop op x.toInt y.toInt m
+  | .neg a => do let x ← eval te s a m; chk (-x.toInt)
+  | .cmp op a b => do let x ← eval te s a m; let y ← eval te s b m; pure (.bool (op.eval x.toInt y.toInt))
+  | .and a b => do let x ← eval te s a m; if x.truthy then do let y ← eval te s b m; pure (.bool y.truthy) else pure (.bool false)
+  | .or a b => do let x ← eval te s a m; if x.truthy then pure (.bool true) else do let y ← eval te s b m; pure (.bool y.truthy)
+  | .not a => do let x ← eval te s a m; pure (.bool (!x.truthy))
   | .ite c a b => do
-    let x ← eval te s c
-    let v ← if x.truthy then eval te s a else eval te s b
+    let x ← eval te s c m
+    let v ← if x.truthy then eval te s a m else eval te s b m
     pure (conv (typeOf te (.ite c a b)) v)
+  -- `abs`, `min`, `max` are the Arduino macros `((x)>0?(x):-(x))`, `((a)<(b)?(a):(b))`, `((a)>(b)?(a):(b))`: the chosen operand is
+  -- evaluated a second time; expressions of this language are pure, so the second evaluation yields the value of the first
+  | .abs a => do let x ← eval te s a m; if x.toInt > 0 then pure (.int x.toInt) else chk (-x.toInt)
+  | .mm k a b => do let x ← eval te s a m; let y ← eval te s b m; pure (conv (typeOf te (.mm k a b)) (k.cpick x y))
 
 open Py (Flow St)
 
@@ -64,84 +87,88 @@ def assignTo (te : TyEnv) (s : Store) (x : String) (v : Val) : Except Err Store 
   | some t => .ok (s.set x (conv t v))
   | none => .error .nameError
 
-def exec (te : TyEnv) : Nat → Stmt → St → Except Err St
-  | 0, _, _ => .error .fuel
-  | fuel + 1, stmt, st =>
+def exec (te : TyEnv) (fuel : Nat) (stmt : Stmt) (st : St) (m : Mode := .strict) : Except Err St :=
+  match fuel with
+  | 0 => .error .fuel
+  | fuel + 1 =>
     match stmt with
     | .skip => .ok st
     | .seq a b => do
-      let st1 ← exec te fuel a st
-      if st1.flow = .broke then pure st1 else exec te fuel b st1
+      let st1 ← exec te fuel a st m
+      if st1.flow = .broke then pure st1 else exec te fuel b st1 m
     | .assign x e => do
-      let v ← eval te st.store e
+      let v ← eval te st.store e m
       let s' ← assignTo te st.store x v
       pure { st with store := s' }
     | .aug x op e => do
-      let cur ← eval te st.store (.var x)
-      let v ← eval te st.store e
-      let r ← chk (op.eval cur.toInt v.toInt)
+      let cur ← eval te st.store (.var x) m
+      let v ← eval te st.store e m
+      let r ← binop op cur.toInt v.toInt m
       let s' ← assignTo te st.store x r
       pure { st with store := s' }
     | .ifs c thn els => do
-      let v ← eval te st.store c
-      if v.truthy then exec te fuel thn st else exec te fuel els st
+      let v ← eval te st.store c m
+      if v.truthy then exec te fuel thn st m else exec te fuel els st m
     | .whileLoop c body => do
-      let v ← eval te st.store c
+      let v ← eval te st.store c m
       if v.truthy then do
-        let st1 ← exec te fuel body st
+        let st1 ← exec te fuel body st m
         if st1.flow = .broke then pure { st1 with flow := .normal }
-        else exec te fuel (.whileLoop c body) st1
+        else exec te fuel (.whileLoop c body) st1 m
       else pure st
     | .forRange i n body => do
       -- `for (int i = 0; i < n; ++i) body` : `i` is a fresh block-scoped int shadowing any outer `i`
       let saved := st.store.get i
       let te' : TyEnv := (i, .int) :: te
-      let st1 ← forLoop te' fuel i n body { st with store := st.store.set i (.int 0) }
+      let st1 ← forLoop te' fuel i n body { st with store := st.store.set i (.int 0) } m
       let restored : Store := match saved with
         | some v => st1.store.set i v
         | none => st1.store.filter (·.1 ≠ i)
       pure { st1 with store := restored }
-    | .write e => do let v ← eval te st.store e; pure { st with trace := .write v.toInt :: st.trace }
+    | .write e => do let v ← eval te st.store e m; pure { st with trace := .write v.toInt :: st.trace }
     | .sleep e => do
-      let v ← eval te st.store e
+      let v ← eval te st.store e m
       if v.toInt < 0 then .error .negativeDelay else pure { st with trace := .delay v.toInt :: st.trace }
     | .brk => pure { st with flow := .broke }
 where
-  forLoop (te : TyEnv) : Nat → String → Expr → Stmt → St → Except Err St
-    | 0, _, _, _, _ => .error .fuel
-    | fuel + 1, i, n, body, st => do
-      let iv ← eval te st.store (.var i)
-      let nv ← eval te st.store n
+  forLoop (te : TyEnv) (fuel : Nat) (i : String) (n : Expr) (body : Stmt) (st : St) (m : Mode := .strict) : Except Err St :=
+    match fuel with
+    | 0 => .error .fuel
+    | fuel + 1 => do
+      let iv ← eval te st.store (.var i) m
+      let nv ← eval te st.store n m
       if iv.toInt < nv.toInt then do
-        let st1 ← exec te fuel body st
+        let st1 ← exec te fuel body st m
         if st1.flow = .broke then pure { st1 with flow := .normal }
         else do
-          let cur ← eval te st1.store (.var i)
+          let cur ← eval te st1.store (.var i) m
           let nxt ← chk (cur.toInt + 1)
-          forLoop te fuel i n body { st1 with store := st1.store.set i nxt }
+          forLoop te fuel i n body { st1 with store := st1.store.set i nxt } m
       else pure st
 
-def initGlobals (te : TyEnv) : List (String × Ty × Expr) → Store → Except Err Store
-  | [], s => .ok s
-  | (x, t, e) :: rest, s => do
-    let v ← eval te s e
-    initGlobals te rest (s.set x (conv t v))
+def initGlobals (te : TyEnv) (gl : List (String × Ty × Expr)) (s : Store) (m : Mode := .strict) : Except Err Store :=
+  match gl with
+  | [] => .ok s
+  | (x, t, e) :: rest => do
+    let v ← eval te s e m
+    initGlobals te rest (s.set x (conv t v)) m
 
-def passes (te : TyEnv) (fuel : Nat) (body : Stmt) : Nat → St → Except Err St
-  | 0, st => .ok st
-  | n + 1, st => do
-    let st1 ← exec te fuel body st
+def passes (te : TyEnv) (fuel : Nat) (body : Stmt) (n : Nat) (st : St) (m : Mode := .strict) : Except Err St :=
+  match n with
+  | 0 => .ok st
+  | n + 1 => do
+    let st1 ← exec te fuel body st m
     -- a `break` at the top of loop() does not compile; the transpiler never emits one there
-    if st1.flow = .broke then .error .breakOutside else passes te fuel body n st1
+    if st1.flow = .broke then .error .breakOutside else passes te fuel body n st1 m
 
 /-- static initialisation, `setup()`, then `loop()` × N -/
-def run (c : CProg) (N fuel : Nat) : Except Err (List Ev) := do
+def run (c : CProg) (N fuel : Nat) (m : Mode := .strict) : Except Err (List Ev) := do
   let te : TyEnv := c.globals.map fun g => (g.1, g.2.1)
-  let s0 ← initGlobals te c.globals []
-  let st0 ← exec te fuel c.setup { store := s0, trace := [] }
+  let s0 ← initGlobals te c.globals [] m
+  let st0 ← exec te fuel c.setup { store := s0, trace := [] } m
   if st0.flow = .broke then .error .breakOutside
   else do
-    let st ← passes te fuel c.loop N st0
+    let st ← passes te fuel c.loop N st0 m
     pure st.trace.reverse
 
 end C
